@@ -202,10 +202,15 @@ func (t *Template) recover(errp *error) {
 	e := recover()
 	if e != nil {
 		if _, ok := e.(runtime.Error); ok {
+			if verifOn && t != nil {
+				vt(nil, "parse.repanic", verifLex(t.lex))
+			}
 			panic(e)
 		}
 		if t != nil {
+			vt(nil, "parse.error", verifLex(t.lex))
 			t.lex.drain()
+			vt(nil, "parse.drained", verifLex(t.lex))
 			t.stopParse()
 		}
 		*errp = e.(error)
@@ -229,6 +234,7 @@ func (s *Set) parse(name, text string, cacheAfterParsing bool) (t *Template, err
 	lexer.run()
 	t.startParse(lexer)
 	t.parseTemplate(cacheAfterParsing)
+	vt(nil, "parse.ok", verifLex(t.lex))
 	t.stopParse()
 
 	if t.extends != nil {
